@@ -214,8 +214,12 @@ impl VM {
                 }),
                 pos,
             )?;
+            return Ok(());
         }
-        Ok(())
+        Err(Error::new(
+            format!("Only primitive values can be cast but got {}", val.type_name()).into(),
+            pos,
+        ))
     }
     fn op_cast(&mut self, t: CastType) -> Result<(), Error> {
         let (val, pos) = self.pop()?;
